@@ -19,7 +19,7 @@ from __future__ import annotations
 import calendar
 import re
 import time as _time
-from typing import Dict, List, Optional, Set, Tuple
+from typing import Dict, List, Optional, Set
 
 from .catalogue import RefGraph
 from .harness import CLOCK, EPOCH0
